@@ -942,6 +942,10 @@ static const uint8_t *unmarshal_one_def(
         if (def->flags & JANET_FUNCDEF_FLAG_HASSYMBOLMAP)
             symbolmap_length = readnat(st, &data);
 
+        /* A function among the constants below may refer back to this definition while it is still
+         * being read, and its environment array is checked against this count: publish it now. */
+        def->environments_length = environments_length;
+
         /* Check name and source (optional) */
         if (def->flags & JANET_FUNCDEF_FLAG_HASNAME) {
             Janet x;
